@@ -469,6 +469,13 @@ class Master(loader.Loader):
                 )
 
                 self._update_task(app, servername, why=None)
+            for app in correct & current:
+                # Placement exists, make sure identity/expiry are up to date.
+                self.backend.update(
+                    os.path.join(placement_node, app),
+                    self._placement_data(app),
+                    check_content=True
+                )
 
         self._save_placement(placement)
         self.up_to_date = True
